@@ -198,6 +198,15 @@ def purity_and_order(ctx, fp, fz, tag, Ptop):
     # value of an element does not depend on which element comes first (profiles listed top-down start with +inf / 0 Pa)
     za = np.array([np.inf, 0.0, 5.0, 50.0, 90.0, np.inf, 11.0, 120.0])
     pa = np.array([0.0, 101325.0, 54048.0, 79.0, 0.1, 0.0, Ptop, 1e-3])
+    # what the calling program logs is inert: the same profiles (unsorted, 1-D and 2-D, and a scalar) with DEBUG logging switched on
+    import logmode
+    zl = np.concatenate([za[1:5], np.linspace(0.3, 118.7, 41)[::-1], [9.19, 71.0, 20.0, 32.0]])
+    with np.errstate(all="ignore"):
+        pl = np.asarray(fp(zl.copy()), dtype=np.float64)
+    logmode.check(ctx, f"{SP} [{tag}]", lambda: (np.asarray(fp(zl.copy())), np.asarray(fp(zl.reshape(7, 7).copy())), np.asarray(fp(np.float64(9.19)))),
+                  {"copy": tag, "z": zl.tolist()})
+    logmode.check(ctx, f"{NAMES[1]} [{tag}]", lambda: (np.asarray(fz(pl.copy())), np.asarray(fz(pl.reshape(7, 7).copy())), np.asarray(fz(np.float64(29960.0)))),
+                  {"copy": tag, "P": pl.tolist()})
     for nm_, f_, arr in (("altitudes", fp, za), ("pressures", fz, pa)):
         for order in ("as listed", "reversed", "sorted"):
             a_ = arr if order == "as listed" else (arr[::-1].copy() if order == "reversed" else np.sort(arr))
